@@ -679,7 +679,13 @@ func addrOf(d Doc, ref Ref) string {
 		s += fmt.Sprintf("/node()[%d]", k)
 	}
 	if ref.K >= 0 {
-		s += fmt.Sprintf("/@*[%d]", ref.K+1)
+		// attributes are addressed by name (unique per element); positional predicates apply to child steps only
+		a := d[ref.I].Attrs[ref.K]
+		if a.Pfx != "" {
+			s += "/@" + a.Pfx + ":" + a.Name
+		} else {
+			s += "/@" + a.Name
+		}
 	}
 	if s == "" {
 		s = "/"
